@@ -137,7 +137,14 @@ func runC12(c *RCase, x *sim.Ctx) *sim.Violation {
 		}
 	}
 	x.Nontrivial(1)
-	res := runReader("xz", b.Stream, len(exp.content), c, 0, x)
+	rc := *c
+	if !exp.ok {
+		rc.PostErr = c04PostErr // where an error is due, the caller reads on after it
+	}
+	res := runReader("xz", b.Stream, len(exp.content), &rc, 0, x)
+	if !exp.ok && res.PostErrEOF {
+		return sim.Viol("illegal-layout-accepted", "after-error", "Read reported %q, later reads went on to a clean end of stream for lead=%d pads=%v trail=%q single=%v", res.Final.Error(), c.Stream.LeadPad, c.Stream.Pads, c.Stream.Trail, c.Single)
+	}
 	if exp.ok {
 		return checkSequentialModel(res, exp.content, "xz-multi")
 	}
